@@ -185,4 +185,10 @@ def nWork (s : NState) : Nat := ((List.range s.ntasks).map (slotWork s.fut)).sum
 /-- bound on the number of top-level steps until the run loop stalls (or the guard panics) -/
 def nStallBound (s : NState) : Nat := nWork s * (s.ntasks + 1) + s.queue.length
 
+/-- the frozen state after the guard panic (and every other boundary): no unfinished task is outside queue ∪ polls in
+    progress, nothing is held twice -/
+def nFrozenB (s : NState) : Bool :=
+  nodupB s.queue && nodupB s.stack &&
+  (List.range s.ntasks).all fun x => (s.fut x).isNone || s.queue.contains x || s.stack.contains x
+
 end YashModel.Executor.Nested
